@@ -333,7 +333,11 @@ func renamings(syms *symbolNodes, sqlIdents []string, level int, legal map[strin
 	}
 	single := pool
 	if level == 0 {
+		// three-feature queries: one generated name of each of the first three prefix families of this query's SQL
 		single = sub
+		if len(single) > 3 {
+			single = single[:3]
+		}
 	}
 	// 1. one symbol at a time -> every pool name
 	for _, v := range syms.Vars {
@@ -388,12 +392,12 @@ func renamings(syms *symbolNodes, sqlIdents []string, level int, legal map[strin
 			r := renaming{Vars: m}
 			if len(syms.Params) > 0 && len(syms.Params) <= len(sub) {
 				// cross-namespace: parameters take (some of) the same names
+				// (injective within the parameter namespace: the i-th parameter takes the i-th variable's new name)
 				r.Params = map[string]string{}
 				for i, p := range syms.Params {
-					r.Params[p] = m[syms.Vars[i%len(syms.Vars)]]
-				}
-				if len(syms.Params) > 1 && len(syms.Vars) == 1 {
-					r.Params = map[string]string{syms.Params[0]: m[syms.Vars[0]]}
+					if i < len(syms.Vars) {
+						r.Params[p] = m[syms.Vars[i]]
+					}
 				}
 			}
 			out = append(out, r)
@@ -401,9 +405,9 @@ func renamings(syms *symbolNodes, sqlIdents []string, level int, legal map[strin
 	}
 	if level >= 2 {
 		// 4. every pair of variables into every ordered pair of distinct names of a 12-name pool
-		big := keep(append(append([]string{}, sub...), "s1", "n1", "e1", "ep0", "pc0", "ex0", "is_cycle", "satisfied", "next_id", "_path", "_edge", "_kind_idx"))
-		if len(big) > 12 {
-			big = big[:12]
+		big := keep(append(append([]string{}, sub...), "s1", "n1", "e1", "ep0", "path", "root_id"))
+		if len(big) > 8 {
+			big = big[:8]
 		}
 		for i := 0; i < len(syms.Vars); i++ {
 			for j := i + 1; j < len(syms.Vars); j++ {
@@ -477,7 +481,7 @@ func main() {
 	if run.Tier == core.Thorough {
 		plans = []plan{{2, 2}, {3, 0}}
 	}
-	run.Set("rule", "for every enumerated / corpus query (translatable or rejected) and every renaming rho of its Variable and Parameter symbols in: {all symbols -> fresh names; each single symbol -> each name of (identifiers of the query's own SQL + translator-internal pool + fresh); each parameter -> each variable's name and vice versa; permutations of the query's own variables; all injective maps of <= 2 (quick) / <= 3 (thorough) variables into a 6-name sub-pool holding one generated name per prefix family used by the query's SQL, parameters mapped onto the same names; thorough: every variable pair into all ordered pairs of a 12-name pool (k=2) and single-symbol renamings into the sub-pool (k=3)}: translate rho(q) and compare token sequences")
+	run.Set("rule", "for every enumerated / corpus query (translatable or rejected) and every renaming rho of its Variable and Parameter symbols in: {all symbols -> fresh names; each single symbol -> each name of (identifiers of the query's own SQL + translator-internal pool + fresh); each parameter -> each variable's name and vice versa; permutations of the query's own variables; all injective maps of <= 2 (quick) / <= 3 (thorough) variables into a 6-name sub-pool holding one generated name per prefix family used by the query's SQL, parameters mapped onto the same names; thorough: every variable pair into all ordered pairs of an 8-name pool (k=2) and single-symbol renamings into three names of the sub-pool (k=3)}: translate rho(q) and compare token sequences")
 	var (
 		mu          sync.Mutex
 		evals       int64
